@@ -310,7 +310,7 @@ impl Check for C18 {
             .into()
     }
     fn budget(t: Tier) -> usize {
-        t.pick(60_000, 1_500_000)
+        t.pick(60_000, 4_000_000)
     }
     fn gen(s: &mut Src, _t: Tier) -> Case {
         if s.chance(1, 5) {
